@@ -221,7 +221,7 @@ func (Engine) Generate(r *simcore.RNG, tier string, idx int) *simcore.Plan {
 	}
 	for i := 0; i < n; i++ {
 		st := simcore.Step{}
-		switch r.Weighted([]int{5, 3, 8, 8, 5, 7, 6, 5, 16, 10, 4, 3, 3, 4, 7, 1, 2, 9}) {
+		switch r.Weighted([]int{5, 3, 8, 8, 5, 7, 6, 5, 16, 10, 4, 3, 3, 4, 7, 1, 2, 9, 2}) {
 		case 0:
 			st = createBal()
 		case 1:
@@ -286,10 +286,14 @@ func (Engine) Generate(r *simcore.RNG, tier string, idx int) *simcore.Plan {
 		case 17:
 			st.Op = "probe"
 			st.A = append([]int64{int64(r.Weighted([]int{35, 40, 25})), r.Range(0, 4), r.Range(0, 63), r.Range(0, 63), r.Range(0, 63)}, amtSpec(r, regime, 0)...)
+		case 18:
+			// a pool from before exit fees were forced to zero: the stored record carries one
+			st.Op = "legacyfee"
+			st.A = []int64{r.Range(0, 63), int64(r.Intn(len(exitFees)))}
 		}
 		if faults && r.Chance(0.18) {
 			switch st.Op {
-			case "advance", "epoch", "restart", "probe":
+			case "advance", "epoch", "restart", "probe", "legacyfee":
 			default:
 				if st.Op == "setfee" && st.Arg(0) != 1 {
 					break
@@ -612,6 +616,9 @@ func (Engine) Execute(run *simcore.Run) {
 				w.setFeeParam(i, st)
 				continue
 			}
+		case "legacyfee":
+			w.setExitFee(i, st)
+			continue
 		}
 		m := w.build(st)
 		if m == nil {
@@ -640,6 +647,38 @@ func (w *world) poolDigest() string {
 		sb.WriteByte('|')
 	}
 	return sb.String()
+}
+
+// exitFees are the exit fees a legacy pool record may carry (new pools are forced to zero).
+var exitFees = []string{"0.01", "0.000001", "0.1", "0.5", "0", "0.003"}
+
+// setExitFee rewrites a pool's stored record with an exit fee, the way pools created before the fee was
+// forced to zero are stored; the keeper offers the same write to the v15 upgrade handler.
+func (w *world) setExitFee(i int, st simcore.Step) {
+	p := w.pool(st.Arg(0))
+	if p == nil {
+		w.run.Event("legacyfee", "skip")
+		return
+	}
+	fee := osmomath.MustNewDecFromStr(exitFees[int(st.Arg(1))%len(exitFees)])
+	cp, err := w.n.App.GAMMKeeper.GetPoolAndPoke(w.n.Ctx, p.id)
+	if err != nil {
+		panic(fmt.Sprintf("harness: known pool %d unreadable: %v", p.id, err))
+	}
+	switch q := cp.(type) {
+	case *balancer.Pool:
+		q.PoolParams.ExitFee = fee
+	case *stableswap.Pool:
+		q.PoolParams.ExitFee = fee
+	}
+	if err := w.n.App.GAMMKeeper.OverwritePoolV15MigrationUnsafe(w.n.Ctx, cp); err != nil {
+		panic(fmt.Sprintf("harness: cannot store pool %d: %v", p.id, err))
+	}
+	if !fee.IsZero() {
+		w.run.Probe("pool-with-exit-fee")
+	}
+	w.run.Event("legacyfee", "ok")
+	w.run.Logf("%d legacyfee pool=%d exit=%s", i, p.id, fee)
 }
 
 // setFeeParam writes a governance-only taker-fee parameter straight into the block state.
